@@ -235,6 +235,27 @@ Theorem C15_range_slices_collapse : forall pick marker rs,
 Proof. exact slices_collapse. Qed.
 Print Assumptions C15_range_slices_collapse.
 
+(** Lifted to the whole group: a range query over a failover group whose upstreams answer slice by slice ([sls]), under
+    ANY schedule, has the outcome of the ONE-slice retry loop over a fresh group in which every upstream sends one of its
+    own slices' responses — a failing one whenever one of its slices fails.  ([outcome_loop] is the retry loop as a
+    function of the per-upstream attempts; it is the outcome of [failover_from] — lemma failover_from_outcome_loop.)
+    With theorems 1–3 this gives: upstreams with an unavailable slice are skipped, the first upstream whose slices all
+    answer gives the whole answer, a query-error slice stops the loop. *)
+Theorem C15_multislice_failover : forall pick, pick_ok pick ->
+  forall sls : list (list response * string),
+  (forall sl, In sl sls -> fst sl <> []) ->
+  exists rs : list (response * string),
+    Forall2 (fun sl p => In (fst p) (fst sl) /\ snd p = snd sl /\
+                         ((exists r' e, In r' (fst sl) /\ run_query ERange (snd sl) r' = AErr e) ->
+                          exists e, run_query ERange (snd sl) (fst p) = AErr e)) sls rs /\
+    outcome_loop ERange 0 ONoServers (map (fun sl => slices_attempt pick (snd sl) (fst sl)) sls) =
+    fo_outcome (failover ERange (fresh_group rs)).
+Proof.
+  intros pick Hp sls Hne. destruct (multislice_failover pick Hp sls Hne) as [rs [HF Hloop]].
+  exists rs. split; [exact HF|]. exact (Hloop 0 ONoServers).
+Qed.
+Print Assumptions C15_multislice_failover.
+
 (** ** 8. The group the loops run over is the configured one (finite, generated from config.newFailoverGroup): the server
     list is `uri` followed by the `failover` entries in the order they were written — any statement that sorts,
     compacts or otherwise touches the list is rejected by the translator — and `required` becomes the strict flag.
